@@ -217,6 +217,19 @@ impl TrainerConfig {
     }
 }
 
+#[cfg(vibrato_verif)]
+impl TrainerConfig {
+    /// Exposes `parse_rewrite_config` to the verification hooks.
+    pub(crate) fn verif_parse_rewrite_config<R>(
+        rdr: R,
+    ) -> Result<(FeatureRewriter, FeatureRewriter, FeatureRewriter)>
+    where
+        R: Read,
+    {
+        Self::parse_rewrite_config(rdr)
+    }
+}
+
 #[cfg(test)]
 mod tests {
     use super::*;
